@@ -16,6 +16,8 @@
 //        interpreter's delayed queue from a helper thread.  Every controlled USCXML_VERIF_POINT blocks its thread
 //        until the director grants it.
 //        answer: res=ok|stuck|fail:<why> fault=none|uaf:<fn>|dfree:<fn> timing=ok|<why> at=<step index reached>
+//                dev=-|<index of the step at which the interpreter thread took another path than the model: a <cancel>
+//                returned where another entry was expected or vice versa; the rest of the run is then left free>
 //                obs=<history, oldest first, times in microseconds since start>
 //        (fail:<why> = the run did not realise the schedule: an expected arrival did not come; VD_DELAY_TRACE=1
 //        in the environment prints the monitor and queue events to stderr)
@@ -307,6 +309,23 @@ static bool wait_done(std::unique_lock<std::mutex>& lk, int k, int timeout_ms) {
 	Ctl& c = ctl();
 	return c.cv.wait_for(lk, std::chrono::milliseconds(timeout_ms), [&]() { return c.opdone[k]; });
 }
+// the interpreter thread is expected at `key`; 1 = it arrived, 2 = operation k returned instead (the code took another
+// path than the model: a deviation, the rest of the run is left free), 0 = neither in time
+static int wait_arrival_or_done(std::unique_lock<std::mutex>& lk, const std::string& key, int k, int timeout_ms) {
+	Ctl& c = ctl();
+	bool ok = c.cv.wait_for(lk, std::chrono::milliseconds(timeout_ms), [&]() { return c.arrivals[key] > c.consumed[key] || c.opdone[k]; });
+	if (!ok) return 0;
+	if (c.arrivals[key] > c.consumed[key]) { c.consumed[key]++; return 1; }
+	return 2;
+}
+// operation k is expected to return; 1 = it did, 2 = the thread arrived at another cancel point instead, 0 = neither
+static int wait_done_or_arrival(std::unique_lock<std::mutex>& lk, int k, int timeout_ms) {
+	Ctl& c = ctl();
+	const std::string key = "I:delay.cancel.before";
+	bool ok = c.cv.wait_for(lk, std::chrono::milliseconds(timeout_ms), [&]() { return c.opdone[k] || c.arrivals[key] > c.consumed[key]; });
+	if (!ok) return 0;
+	return c.opdone[k] ? 1 : 2;
+}
 static void grant(const std::string& role) {
 	Ctl& c = ctl();
 	c.grants[role]++;
@@ -382,7 +401,8 @@ static std::string run_replay(long long tickms, const std::string& progs, const 
 		nextop = S->ops.size();
 	}
 
-	for (size_t i = 0; i < steps.size() && res == "ok"; i++) {
+	int dev = -1;   // index of the step at which the code left the path the model predicts
+	for (size_t i = 0; i < steps.size() && res == "ok" && dev < 0; i++) {
 		const std::string& tk = steps[i];
 		{
 			std::lock_guard<std::mutex> l(c.m);
@@ -419,8 +439,14 @@ static std::string run_replay(long long tickms, const std::string& progs, const 
 						grant("I");
 					}
 				}
-				if (post == "d") { ok = wait_done(lk, k, ARR); why = "op-not-done"; }
-				else if (post == "q") { ok = wait_arrival(lk, "I:delay.cancel.before", ARR); why = "no-arrival-delay.cancel.before"; }
+				if (post == "d") {
+					int w = (head[1] == 'c') ? wait_done_or_arrival(lk, k, ARR) : (wait_done(lk, k, ARR) ? 1 : 0);
+					ok = w != 0; why = "op-not-done"; if (w == 2) dev = (int)i;
+				}
+				else if (post == "q") {
+					int w = wait_arrival_or_done(lk, "I:delay.cancel.before", k, ARR);
+					ok = w != 0; why = "no-arrival-delay.cancel.before"; if (w == 2) dev = (int)i;
+				}
 				else if (post == "l") {
 					// cancelAllDelayed has no point after taking _mutex: wait until the helper holds it (or is done)
 					lk.unlock();
@@ -442,8 +468,14 @@ static std::string run_replay(long long tickms, const std::string& progs, const 
 				bool isall = head.substr(0, 3) == "Ial";
 				if (!pend && !isall) grant("I");
 				if (post == "l") { ok = wait_arrival(lk, "I:delay.cancel.locked", ARR); why = "no-arrival-delay.cancel.locked"; }
-				else if (post == "q") { ok = wait_arrival(lk, "I:delay.cancel.before", ARR); why = "no-arrival-delay.cancel.before"; }
-				else if (post == "d") { ok = wait_done(lk, k, ARR); why = "op-not-done"; }
+				else if (post == "q") {
+					int w = wait_arrival_or_done(lk, "I:delay.cancel.before", k, ARR);
+					ok = w != 0; why = "no-arrival-delay.cancel.before"; if (w == 2) dev = (int)i;
+				}
+				else if (post == "d") {
+					int w = isall ? (wait_done(lk, k, ARR) ? 1 : 0) : wait_done_or_arrival(lk, k, ARR);
+					ok = w != 0; why = "op-not-done"; if (w == 2) dev = (int)i;
+				}
 				else if (post == "f") { c.cv.wait_for(lk, std::chrono::milliseconds(ARR), []() { return false; }); ok = false; why = "fault-expected-none-seen"; }
 				else c.cv.wait_for(lk, std::chrono::milliseconds(SETTLE), []() { return false; });
 			}
@@ -517,7 +549,8 @@ static std::string run_replay(long long tickms, const std::string& progs, const 
 	{
 		std::unique_lock<std::mutex> lk(c.m);
 		c.tracking = false;
-		out = "res=" + res + " fault=" + c.fault + " timing=" + timing + " at=" + std::to_string(c.step_at) + " obs=" + join_obs();
+		out = "res=" + res + " fault=" + c.fault + " timing=" + timing + " at=" + std::to_string(c.step_at) +
+		      " dev=" + (dev < 0 ? std::string("-") : std::to_string(dev)) + " obs=" + join_obs();
 	}
 	(void)tol_us;
 	std::cout << "@@" << out << std::endl;
